@@ -240,9 +240,20 @@ _W5 = {
     "C17": " Fifth-wave additions: handlers that watch their context; after a serving ended by cancellation the same Server value serves again on a new listener (one request, then cancel or Shutdown).",
     "C19": " Fifth-wave additions: follow-up calls after Connect / Close+Connect; a read still in progress when Do returns can never be reported to the hooks (read_never_reported).",
 }
+_W6 = {
+    "C07": " Sixth-wave additions: unit ids 0, 255, 248; drawn addresses include 0, 1, 0xFFFF, 255/256 and the sign boundaries; RTU read replies in which a register holds the CRC of what precedes it.",
+    "C08": " Sixth-wave additions: unit ids 0, 255, 248; a success with nothing read has its own signature (nothing_was_read).",
+    "C11": " Sixth-wave additions: after the write the device's memory (unpacked as the specification says) must equal the written pattern (write_packing_differs).",
+    "C12": " Sixth-wave additions: corruption kinds crc_swapped and crc_bytes_only (damage confined to the CRC trailer).",
+    "C14": " Sixth-wave additions: callers may start at unit id 0; read-server-id calls (22-byte vendor string) among the operations.",
+    "C17": " Sixth-wave additions: requests to unit ids 0 and 255; a Shutdown context that has already expired.",
+    "C19": " Sixth-wave additions: half of the network clients come from the protocol's own constructor (NewTCPClientWithConfig / NewRTUClientWithConfig) instead of NewClient with an observable parser.",
+}
 for _k, _v in _W3.items():
     META[_k]["rule"] += _v
 for _k, _v in _W4.items():
     META[_k]["rule"] += _v
 for _k, _v in _W5.items():
+    META[_k]["rule"] += _v
+for _k, _v in _W6.items():
     META[_k]["rule"] += _v
